@@ -179,10 +179,63 @@ class Program:
         self._load()
         self._index()
         self._infer()
+        self._positionalise_required_keywords()
         if self.inline_from is not None:
             self.funcs.hidden = {q for q, f in dict.items(self.funcs) if getattr(f.node, "_dead_helper", False)}
             for t in list(self.callers):
                 self.callers[t] = [(c, call) for c, call in self.callers[t] if c not in self.funcs.hidden]
+
+    def _positionalise_required_keywords(self):
+        """`f(top=a, root=b)` -> `f(a, b)` for the REQUIRED positional parameters of package functions (a call-site spelling, same call): the rules read
+        arguments by position. Keywords for parameters that have a default are left alone (the reference tree passes those by name and rules look for them)."""
+        import os as _os
+
+        if _os.environ.get("VERIF_NO_NORMALISE"):
+            return
+        for fq, cs in self.calls.items():
+            for call, tg in cs:
+                if not call.keywords or any(k.arg is None for k in call.keywords) or any(isinstance(a, ast.Starred) for a in call.args):
+                    continue
+                cands = []
+                for t in tg:
+                    if t in self.funcs:
+                        cands.append(self.funcs[t])
+                    elif t.startswith("class:") and t[6:] in self.classes and "__init__" in self.classes[t[6:]].methods:
+                        cands.append(self.classes[t[6:]].methods["__init__"])
+                    else:
+                        cands = []
+                        break
+                if not cands:
+                    continue
+                orders = set()
+                for f in cands:
+                    if f.vararg:
+                        orders.add(None)
+                        continue
+                    params = list(f.params)
+                    if f.name == "__init__" or self._receiver_bound(f, call):
+                        params = params[1:]
+                    dfl = f.param_defaults()
+                    orders.add(tuple(x for x in params if x not in dfl))
+                if len(orders) != 1 or None in orders:
+                    continue
+                required = list(orders.pop())
+                kw = {k.arg: k for k in call.keywords}
+                npos = len(call.args)
+                moved = False
+                while npos < len(required) and required[npos] in kw:
+                    k = kw.pop(required[npos])
+                    call.args.append(k.value)
+                    call.keywords.remove(k)
+                    npos += 1
+                    moved = True
+                if moved:
+                    for a in call.args:
+                        if getattr(a, "_parent", None) is not call:
+                            try:
+                                a._parent = call
+                            except Exception:
+                                pass
 
     # ------------------------------------------------------------------ loading
     def _load(self):
